@@ -23,7 +23,19 @@
    returns): Pipeline.In may block under back pressure before it copies.  BufOwned / PendingStable state that
    the final flush's In happens-before the Puts (mechanism M_PutAfterLastIn).
 
+   The END OF THE STREAM is a dimension of the case: only io.EOF ends a body cleanly; io.ErrUnexpectedEOF (a body
+   shorter than announced, a truncated gzip stream) and any other error mean the body is incomplete: no 200
+   (OKOnlyAfterAllLines, NoOKOnError; switch ueof_is_eof).
+   Mode "gz": gzip requests decompress through pooled *gzip.Reader OBJECTS (zr, zobj, poolZ): owned from the pool Get
+   to the deferred Put, dropped when Reset fails on a bad header; the case is the three-step sequence good request,
+   bad-header request, two overlapping requests (PoolHoldsEachObjectOnce, ReaderIsMine; switch gz_double_put).
+   Mode "gzone": one gzip request whose COMPRESSED size (the announced Content-Length) is a dimension of its own:
+   the decompressed stream handed to processBulk is the whole body whatever its ratio to that size
+   (mechanism M_GzipStreamUnbounded; switch gz_limit_clean_eof).
+
    Named abstractions (nothing else is idealised):
+     * gzip compression itself is the identity: what is modelled is the stateful pooled reader (Reset points it to a
+       body, Read delivers that body's bytes from the object's position) and the size of the compressed payload;
      * capacity / re-allocation on append is not modelled: append always writes in place (the worst case for
        sharing; in the faithful code contents beyond len are never read);
      * the byte scan inside processChunk is one recursive operator (PCLoop), one TLA+ step per Read and
@@ -35,11 +47,11 @@
    switch of mechanism M_PutAfterLastIn (Puts right after the read loop, before the tail is handed over). *)
 EXTENDS Integers, Sequences, FiniteSets, TLC, Json
 
-CONSTANTS Mode,          \* "serial" | "conc" | "gz"
+CONSTANTS Mode,          \* "serial" | "conc" | "gz" | "gzone"
           MaxLen,        \* serial: bound on the body length of a single-request case
           SeqLen,        \* serial: bound on the first body's length of a two-request case (second is shorter)
           ConcLen,       \* conc: bound on the body length of each of the two requests
-          GzLen,         \* gz: bound on the body length of the two overlapping gzip requests
+          GzLen,         \* gz: bound on the body length of the two overlapping gzip requests; gzone: of the one request
           Symbols,       \* non-newline symbols (positive integers); 0 is the newline
           Mutant         \* "none" = faithful transcription
 
@@ -115,11 +127,16 @@ ErrEnds == {"err", "ueof", "ueofd"}          \* the body was NOT delivered compl
 \* zr:      a (0, nil) read before every other read
 EndsFor(n, ends) == IF n = 0 THEN ends \ {"with", "ueofd"} ELSE ends   \* (n,err) on the last data read needs a data read
 
-Req(b, c, e, z) == [body |-> b, sizes |-> c, end |-> e, zr |-> z, gz |-> FALSE, bad |-> FALSE]
+Req(b, c, e, z) == [body |-> b, sizes |-> c, end |-> e, zr |-> z, gz |-> FALSE, bad |-> FALSE, clen |-> 0]
 \* a request with Content-Encoding: gzip; bad = its payload does not start with a valid gzip header.
 \* (named abstraction: compression itself is the identity; what is modelled of gzip is the stateful, pooled
 \*  reader object: Reset points it to a body, Read delivers that body's bytes from the object's position)
-ReqG(b, c, bad) == [body |-> b, sizes |-> c, end |-> "after", zr |-> FALSE, gz |-> TRUE, bad |-> bad]
+ReqG(b, c, bad) == [body |-> b, sizes |-> c, end |-> "after", zr |-> FALSE, gz |-> TRUE, bad |-> bad, clen |-> 0]
+\* ... whose COMPRESSED payload has cl bytes, announced as Content-Length (0 = not announced).  The ratio between the
+\* decompressed body and cl is arbitrary (1 .. Len(b)): very repetitive logs inflate hundreds of times.
+\* Mechanism M_GzipStreamUnbounded: the stream handed to processBulk is the WHOLE decompressed body whatever that ratio.
+ReqGC(b, c, cl) == [body |-> b, sizes |-> c, end |-> "after", zr |-> FALSE, gz |-> TRUE, bad |-> FALSE, clen |-> cl]
+LimitR == 2      \* mutant gz_limit_clean_eof: the decompressed stream ends, with a clean EOF, after clen * LimitR bytes
 Bodies(n, syms) == [1..n -> syms \cup {NL}]
 MinSym == CHOOSE x \in Symbols : \A y \in Symbols : x <= y
 
@@ -127,6 +144,7 @@ MinSym == CHOOSE x \in Symbols : \A y \in Symbols : x <= y
 \* conc:   two requests over disjoint alphabets
 \* gz:     the three-step sequence: a good gzip request, a gzip request with a bad header, then two overlapping
 \*         gzip requests over disjoint alphabets (requests 1, 2 run one after the other; 3 and 4 interleave)
+\* gzone:  one gzip request, every body x split x compressed size (Content-Length) from 0 (not announced) to Len(body)
 \* (written with quantifiers so that TLC enumerates the cases instead of building one big set)
 CaseInit ==
   IF Mode = "serial"
@@ -143,6 +161,9 @@ CaseInit ==
            \E n2 \in 0..ConcLen : \E b2 \in Bodies(n2, Symbols \ {MinSym}) : \E c2 \in Comps[n2] :
              \E e2 \in EndsFor(n2, {"with", "after"}) :
                cs = << Req(b, c, e, FALSE), Req(b2, c2, e2, FALSE) >>
+    ELSE IF Mode = "gzone"
+    THEN \E n \in 0..GzLen : \E b \in Bodies(n, Symbols) : \E c \in Comps[n] : \E cl \in 0..n :
+           cs = << ReqGC(b, c, cl) >>
     ELSE \E n \in 0..GzLen : \E b \in Bodies(n, {MinSym}) : \E c \in Comps[n] :
            \E n2 \in 0..GzLen : \E b2 \in Bodies(n2, Symbols \ {MinSym}) : \E c2 \in Comps[n2] :
              cs = << ReqG(<<MinSym>>, <<1>>, FALSE), ReqG(<<>>, <<>>, TRUE), ReqG(b, c, FALSE), ReqG(b2, c2, FALSE) >>
@@ -211,7 +232,7 @@ Init ==
 RemoveAt(s, j) == SubSeq(s, 1, j - 1) \o SubSeq(s, j + 1, Len(s))
 \* which pooled item a Get may return: serial = the one put last (or none if empty); conc = any, or none
 \* (gz: the buffer pools behave as in serial -- their nondeterminism is explored by conc --, the gzip reader pool: any, or none)
-PoolChoices(pool) == IF Mode \in {"serial", "gz"} THEN (IF pool = <<>> THEN {0} ELSE {Len(pool)}) ELSE 0..Len(pool)
+PoolChoices(pool) == IF Mode \in {"serial", "gz", "gzone"} THEN (IF pool = <<>> THEN {0} ELSE {Len(pool)}) ELSE 0..Len(pool)
 PoolChoicesZ(pool) == 0..Len(pool)
 
 \* order of the steps after the read loop.
@@ -318,7 +339,10 @@ Read(i) ==
   /\ pc[i] = "read"
   /\ IF cs[i].gz
        THEN LET o == zobj[zr[i]]
-                avail == Len(cs[o.src].body) - o.pos
+                whole == Len(cs[o.src].body) - o.pos
+                avail == IF Mutant = "gz_limit_clean_eof" /\ cs[i].clen > 0
+                           THEN Min(whole, Max(0, cs[i].clen * LimitR - off[i]))     \* io.LimitReader: clean EOF at the limit
+                           ELSE whole
                 want == IF k[i] <= Len(cs[i].sizes) THEN cs[i].sizes[k[i]] ELSE 1
                 m == Min(want, avail)
             IN IF avail = 0
